@@ -701,6 +701,9 @@ class Simulation:
     def _connect_measurements_fct(self, module_name, func_name, extra_kwargs=None, priority=0):
         if extra_kwargs is None:
             extra_kwargs = {}
+        else:
+            # modified below: don't change the simulation parameters, which get saved (for a later resume)
+            extra_kwargs = dict(extra_kwargs)
         wrap = False
         if func_name.startswith('wrap'):
             wrap = True
